@@ -282,7 +282,7 @@ func (r *callersRunner) shutdown() {
 	r.cl = nil
 }
 
-// do runs one op under a watchdog: a call that does not return within one second
+// do runs one op under a watchdog: a call that does not return within the watchdog time (20s, 2s after the first hang)
 // (e.g. Acquire waiting for a leaked wire) is answered "hang" and the client is abandoned.
 func (r *callersRunner) do(line string) {
 	f := strings.Fields(line)
@@ -293,6 +293,11 @@ func (r *callersRunner) do(line string) {
 		r.c.Emit(line, "skipped-after-hang", false)
 		return
 	}
+	// generous on the first hang (a loaded machine can stall the process for seconds), short afterwards
+	hangAfter := 20 * time.Second
+	if r.hangs > 0 {
+		hangAfter = 2 * time.Second
+	}
 	done := make(chan struct{})
 	go func() {
 		defer close(done)
@@ -300,11 +305,11 @@ func (r *callersRunner) do(line string) {
 	}()
 	select {
 	case <-done:
-	case <-time.After(time.Second):
+	case <-time.After(hangAfter):
 		r.hung = true
 		r.hangs++
 		r.c.Emit(line, "hang", true)
-		r.c.Fail("callers:hang", line, "the call did not return within 1s: the pool waits for a wire that is never given back")
+		r.c.Fail("callers:hang", line, "the call did not return within its watchdog time: the pool waits for a wire that is never given back")
 		// unblock the stuck call so that the goroutine ends before the next episode
 		if r.cl != nil {
 			r.cl.Close()
